@@ -22,6 +22,7 @@ import (
 	"sort"
 	"strconv"
 	"strings"
+	"sync"
 	"testing"
 	"time"
 
@@ -148,6 +149,9 @@ func c18tFacts(auth, secret, prev string) string {
 }
 
 func c18tStart(cfg verifh.Cfg) (func(op []string) string, func()) {
+	if cfg.Str("kind", "") == "tpc" {
+		return c18tStartPar(cfg)
+	}
 	if cfg.Str("kind", "") != "tp" {
 		return func(op []string) string { return "bad-section" }, nil
 	}
@@ -200,6 +204,113 @@ func c18tStart(cfg verifh.Cfg) (func(op []string) string, func()) {
 		jwt.TimeFunc = savedTimeFunc
 		timex.VerifClockOff()
 	}
+}
+
+// kind=tpc: SEVERAL requests inside ParseToken of ONE parser at the same time (one goroutine each, released together).
+//   par now=<unix> clk=<ns> auths=<hex>|<hex>|…  =>  n=<k> and per request i the token facts with keys suffixed .i, err.i= valid.i=
+// Only the outcomes are printed: by Conc.concurrent_jwt_outcome_is_sequential they do not depend on the schedule (the
+// history counters do, and are not printed).
+func c18tStartPar(cfg verifh.Cfg) (func(op []string) string, func()) {
+	timex.VerifSetNow(time.Duration(verifh.Atoi64(cfg.Str("t0", "0"))))
+	var now int64
+	savedTimeFunc := jwt.TimeFunc
+	jwt.TimeFunc = func() time.Time { return time.Unix(now, 0) }
+	var tp *TokenParser
+	if rd := verifh.Atoi64(cfg.Str("rd", "0")); rd > 0 {
+		tp = NewTokenParser(WithResetDuration(time.Duration(rd)))
+	} else {
+		tp = NewTokenParser()
+	}
+	secret, prev := string(c18tUnhex(cfg.Str("s", "-"))), string(c18tUnhex(cfg.Str("p", "-")))
+	step := func(op []string) string {
+		if op[0] != "par" {
+			return "bad-op"
+		}
+		kv := c18tKV(op)
+		now = verifh.Atoi64(kv["now"])
+		if d := verifh.Atoi64(kv["clk"]); d > 0 {
+			timex.VerifAdvance(time.Duration(d))
+		}
+		var auths []string
+		for _, h := range strings.Split(kv["auths"], "|") {
+			auths = append(auths, string(c18tUnhex(h)))
+		}
+		errs, valids := make([]int, len(auths)), make([]int, len(auths))
+		var wg sync.WaitGroup
+		start := make(chan struct{})
+		for i := range auths {
+			wg.Add(1)
+			go func(i int) {
+				defer wg.Done()
+				r := httptest.NewRequest(http.MethodGet, "http://localhost/a", nil)
+				if auths[i] != "" {
+					r.Header["Authorization"] = []string{auths[i]}
+				}
+				<-start
+				tok, err := tp.ParseToken(r, secret, prev)
+				if err != nil {
+					errs[i] = 1
+				} else if tok != nil && tok.Valid {
+					valids[i] = 1
+				}
+			}(i)
+		}
+		close(start)
+		wg.Wait()
+		out := []string{fmt.Sprintf("n=%d", len(auths))}
+		for i, a := range auths {
+			for _, f := range strings.Fields(c18tFacts(a, secret, prev)) {
+				k := strings.SplitN(f, "=", 2)
+				out = append(out, fmt.Sprintf("%s.%d=%s", k[0], i, k[1]))
+			}
+			out = append(out, fmt.Sprintf("err.%d=%d valid.%d=%d", i, errs[i], i, valids[i]))
+		}
+		return strings.Join(out, " ")
+	}
+	return step, func() {
+		jwt.TimeFunc = savedTimeFunc
+		timex.VerifClockOff()
+	}
+}
+
+func c18tGenPar(r *verifh.Rng) verifh.Section {
+	s, p, other := c18tWord(r, 6, 20), c18tWord(r, 6, 20), c18tWord(r, 6, 20)
+	rd := int64(r.Pick(0, 1, 10)) * 1_000_000_000
+	cfg := fmt.Sprintf("kind=tpc t0=%d rd=%d s=%s p=%s", int64(r.Range(0, 1000))*1_000_000_000, rd, c18tHex([]byte(s)), c18tHex([]byte(p)))
+	var ops []string
+	for i, n := 0, r.Range(4, verifh.Scale(10, 30)); i < n; i++ {
+		now := int64(1_700_000_000 + r.Intn(100_000_000))
+		var auths []string
+		for j, k := 0, r.Range(2, 8); j < k; j++ {
+			claims := map[string]any{"uid": r.Intn(1000), "exp": now + int64(r.Range(1, 1000))}
+			signWith := s
+			switch r.Intn(8) {
+			case 0, 1:
+			case 2, 3:
+				signWith = p
+			case 4:
+				signWith = other
+			case 5: // expired, signed with the current secret: must be refused whichever secret is tried first
+				claims["exp"] = now - int64(r.Range(0, 10))
+			case 6: // expired, signed with the previous secret
+				claims["exp"], signWith = now-int64(r.Range(0, 10)), p
+			case 7:
+				claims["nbf"] = now + int64(r.Range(1, 10))
+				signWith = r.PickS(s, p)
+			}
+			a := "Bearer " + c18tToken(r.PickS("HS256", "HS256", "HS384", "HS512"), signWith, claims)
+			if r.Chance(1, 16) {
+				a = ""
+			}
+			auths = append(auths, c18tHex([]byte(a)))
+		}
+		clk := int64(r.Range(0, 3)) * 400_000_000
+		if rd > 0 && r.Chance(1, 3) {
+			clk = rd + 1 // past the reset: the clearing of the map races with the other requests' loads and stores
+		}
+		ops = append(ops, fmt.Sprintf("par now=%d clk=%d auths=%s", now, clk, strings.Join(auths, "|")))
+	}
+	return verifh.Section{Cfg: cfg, Ops: ops}
 }
 
 func TestVerifC18Token(t *testing.T) {
@@ -315,6 +426,9 @@ func c18tGen(r *verifh.Rng) []verifh.Section {
 	var secs []verifh.Section
 	for i := verifh.Scale(30, 300); i > 0; i-- {
 		secs = append(secs, c18tGenSection(r.Fork()))
+	}
+	for i := verifh.Scale(8, 60); i > 0; i-- {
+		secs = append(secs, c18tGenPar(r.Fork()))
 	}
 	return secs
 }
